@@ -52,6 +52,17 @@ fn gen_string(r: &mut Rng) -> String {
         0 => String::new(),
         1 => r.pick(&["a", "hello", "a,b,,c", "  x  ", "aaa", "abcabc"]).to_string(),
         2 => r.pick(&["é", "éa", "aé", "日本語", "a😀b", "e\u{301}x", "ßß", "😀"]).to_string(),
+        3 => {
+            // characters whose code points agree in their low byte / low 16 bits / UTF-8 lead byte (a table indexed by a
+            // truncated code point or by a byte would confuse them)
+            let base = *r.pick(&['a', '1', ',', ' ', 'Z', 'é']);
+            let kin: Vec<char> = [0x100u32, 0x300, 0x4E00, 0x1_0000, 0x1_F600 - 0x61 + 0x61]
+                .iter()
+                .filter_map(|d| char::from_u32(base as u32 + d))
+                .chain([base, 'ö', 'ü', '🚀', '😁'])
+                .collect();
+            (0..1 + r.below(8)).map(|_| *r.pick(&kin)).collect()
+        }
         _ => {
             let alphabet: Vec<char> = "abé日😀, ".chars().collect();
             (0..r.below(9)).map(|_| *r.pick(&alphabet)).collect()
